@@ -471,6 +471,10 @@ def check(run, db, tier):
     from .c01values import route_value_rules, fft_route_value_rules
     run.group(route_value_rules, run, db)
     run.group(fft_route_value_rules, run, db)
+    run.rule('C01.shiftgrid', 'no index vector of the transform bases is built by np.arange(a, b) with end points that depend on the real-valued shift '
+             '(its length would be decided by a floating-point ceil): taint analysis from the shift parameters over prysm/fttools.py')
+    from .c01grid import shiftgrid_rules
+    run.group(shiftgrid_rules, run, db)
     run.group(cache_rules, run, db)
     run.group(fresh_rules, run, db)
     run.group(mdft_rules, run, db)
